@@ -198,6 +198,88 @@ class Sim:
         prod(tmp)
         self.add_assign(dst, tmp)
 
+    # ---- composite.rs
+    def acc_fits(self, n):
+        if not (self.q < 64 and n <= 2 ** (63 - self.q)):
+            raise Err("other")
+
+    def add_into(self, cd, ca, cb):
+        off = max(0, min(ca.eff(), cb.eff()) - self.maxk(cd))
+        lb = self.budget_sub(min(ca.b, cb.b), off)
+        cd.d, cd.b = min(ca.d, cb.d), lb
+
+    def add_many(self, dst, ins):
+        if not ins:
+            raise Err("other")
+        if len(ins) == 1:
+            self.shift_into(dst, ins[0])
+            return
+        self.acc_fits(len(ins))
+        self.add_into(dst, ins[0], ins[1])
+        for c in ins[2:]:
+            self.add_assign(dst, c)
+
+    def mul_many_rec(self, dst, ins):
+        if any(c.d != ins[0].d for c in ins):
+            raise Err("other")
+        if len(ins) == 1:
+            self.shift_into(dst, ins[0])
+        elif len(ins) == 2:
+            self.mul_into(dst, ins[0], ins[1])
+        else:
+            mid = len(ins) // 2
+            left, right = ins[:mid], ins[mid:]
+            cl2 = lambda n: 0 if n <= 1 else (n - 1).bit_length()
+            lk = max(0, min(c.eff() for c in left) - cl2(len(left)) * ins[0].d)
+            rk = max(0, min(c.eff() for c in right) - cl2(len(right)) * ins[0].d)
+            lt, rt = Ct(div_ceil(lk, self.q)), Ct(div_ceil(rk, self.q))
+            self.mul_many_rec(lt, left)
+            self.mul_many_rec(rt, right)
+            self.mul_into(dst, lt, rt)
+
+    def accumulate(self, dst, terms):
+        for t in terms:
+            tmp = Ct(dst.size)
+            t(tmp)
+            self.add_assign(dst, tmp)
+
+    def dot_ct(self, dst, A, Bs):
+        if len(A) == 0 or len(A) != len(Bs):
+            raise Err("other")
+        self.acc_fits(len(A))
+        if len(A) == 1:
+            self.mul_into(dst, A[0], Bs[0])
+            return
+        amin, bmin = min(c.b for c in A), min(c.b for c in Bs)
+        a_al = all(c.b == amin and c.d == A[0].d for c in A)
+        b_al = all(c.b == bmin and c.d == Bs[0].d for c in Bs)
+        uniform = all(c.d == A[0].d for c in A) and all(c.d == Bs[0].d for c in Bs)
+        if not uniform:
+            self.mul_into(dst, A[0], Bs[0])
+            self.accumulate(dst, [(lambda t, x=x, y=y: self.mul_into(t, x, y)) for x, y in list(zip(A, Bs))[1:]])
+            return
+        ald, bld = A[0].d, Bs[0].d
+        aT, bT = amin + ald, bmin + bld
+        if max(ald, bld) > min(amin, bmin):
+            raise Err(f"MultiplicationPrecisionUnderflow:{amin}:{bmin}:{ald}:{bld}")
+        lhr0 = min(amin, bmin) - max(ald, bld)
+        rld = min(ald, bld)
+        ro = max(0, lhr0 + rld - self.maxk(dst))
+        rlb = self.budget_sub(lhr0, ro)
+        cnv = max(amin, bmin) + max(ald, bld) + ro
+        for x, y in zip(A, Bs):
+            xa = x if a_al else Ct(div_ceil(aT, self.q), ald, amin)
+            yb = y if b_al else Ct(div_ceil(bT, self.q), bld, bmin)
+            self.usub(self.eff_limbs(xa) + self.eff_limbs(yb), self.cnv_hi(cnv))
+        dst.d, dst.b = rld, rlb
+
+    def dot_with(self, dst, A, first, term):
+        if not A:
+            raise Err("other")
+        self.acc_fits(len(A))
+        first(dst, A[0])
+        self.accumulate(dst, [(lambda t, a=a: term(t, a)) for a in A[1:]])
+
     # ---- one API call; returns (outcome string, finding key or None)
     def step(self, f):
         P = self.pool
@@ -440,6 +522,43 @@ class Sim:
                 if pd + pb > self.maxk(cd):
                     raise Err(f"LimbReallocationShrinksBelowMetadata:{self.maxk(cd)}:{pd}:{self.q}:{cd.size}")
                 cd.d, cd.b = pd, pb
+            elif name in ("add_many", "mul_many"):
+                d = iv[0]
+                cd = slot(d)
+                cs = [slot(a) for a in iv[1:]]
+                distinct(d, *iv[1:])
+                if name == "add_many":
+                    self.add_many(cd, cs)
+                else:
+                    if not cs:
+                        raise Err("other")
+                    self.mul_many_rec(cd, cs)
+            elif name == "dot_ct":
+                d, n = iv[0], iv[1]
+                if len(iv) != 2 + 2 * n:
+                    return "bad-op", None
+                cd = slot(d)
+                A = [slot(a) for a in iv[2:2 + n]]
+                Bs = [slot(a) for a in iv[2 + n:]]
+                distinct(d, *iv[2:])
+                self.dot_ct(cd, A, Bs)
+            elif name in ("dot_pt_znx", "dot_pt_rnx", "dot_cst_rnx"):
+                d, n = iv[0], iv[1]
+                cd = slot(d)
+                A = [slot(a) for a in iv[2:2 + n]]
+                distinct(d, *iv[2:2 + n])
+                rest = iv[2 + n:]
+                if name == "dot_pt_znx":
+                    pd, pb, pq = rest
+                    self.pt_build(pd, pb)
+                    self.dot_with(cd, A, lambda t, a: self.mul_pt_znx(t, a, pd, pb, pq), lambda t, a: self.mul_pt_znx(t, a, pd, pb, pq))
+                elif name == "dot_pt_rnx":
+                    pd, pb = rest
+                    self.dot_with(cd, A, lambda t, a: self.mul_pt_rnx(t, a, pd, pb), lambda t, a: self.mul_pt_rnx(t, a, pd, pb))
+                else:
+                    pd, pb, re, im = rest
+                    self.dot_with(cd, A, lambda t, a: self.mul_cst_rnx(t, a, pd, pb, re, im, False),
+                                  lambda t, a: self.mul_cst_rnx(t, a, pd, pb, re, im, False))
             elif name == "dec":
                 a, pd, pb, pq = iv
                 ca = slot(a)
@@ -533,6 +652,7 @@ class Gen:
             ("rot", 5), ("rot_assign", 3), ("conj", 3), ("conj_assign", 2),
             ("rescale", 5), ("rescale_assign", 6), ("align", 2),
             ("compact", 10), ("realloc", 2), ("compact_copy", 2), ("set_meta", 1), ("dec", 3),
+            ("add_many", 4), ("mul_many", 4), ("dot_ct", 4), ("dot_pt_znx", 2), ("dot_pt_rnx", 2), ("dot_cst_rnx", 2),
         ]
         if not live:
             name = "enc"
@@ -544,6 +664,19 @@ class Gen:
                     break
                 x -= w
         cd = P[d]
+        if name in MANY_OUT:
+            srcs = [i for i in others if i in live] or others
+            n = r.range(1, 4) if not boundary else r.choice([0, 1, 2, 5])
+            pick = lambda: [r.choice(srcs) for _ in range(n)]
+            if name in ("add_many", "mul_many"):
+                return [name, d] + pick()
+            if name == "dot_ct":
+                return [name, d, n] + pick() + pick()
+            if name == "dot_pt_znx":
+                return [name, d, n] + pick() + [pd, pb, pq]
+            if name == "dot_pt_rnx":
+                return [name, d, n] + pick() + [pd, pb]
+            return [name, d, n] + pick() + [pd, pb, re, im]
         if name == "enc":
             kmax = cd.size * q
             if boundary:
@@ -838,7 +971,55 @@ def scenario_programs(rng, reps):
                             continue
                         n = 16 if idx % 3 else 64
                         lines.append(f"be={be} n={n} base2k={q} maxprec=53 keys=1 pool={pool} vals=1 mag=1.0 ops=" + ";".join(pre + [op]))
+        # composite operations: natural width from the mirror run into a very wide destination
+        for name in MANY_OUT:
+            for narrow in (1, 0):
+                for brel in (-1, 0, 1):
+                    be, q = BACKENDS[idx % 4]
+                    idx += 1
+                    W = 7 if q == 52 else 9
+                    d = rng.range(26, 40) if q == 52 else rng.range(14, 22)
+                    B = rng.range(150, 200) if q == 52 else rng.range(70, 90)
+                    r = rng.range(1, q + 5) if q == 52 else rng.range(1, 20)
+                    g = rng.range(3, 9) if name in ("add_many", "dot_ct", "dot_cst_rnx") and rng.chance(1, 2) else 0
+                    bs = [B, B + brel * r, B - (r if brel == 0 and rng.chance(1, 2) else 0)]
+                    ds = [d, d - g, d]
+                    pre = [f"enc,{i},{ds[i] + bs[i]},{ds[i]},0,{q}" for i in range(3)]
+                    if name == "add_many":
+                        body = ["add_many", 3, 0, 1, 2]
+                    elif name == "mul_many":
+                        pre = [f"enc,{i},{d + bs[i]},{d},0,{q}" for i in range(3)]
+                        body = ["mul_many", 3, 0, 1, 2]
+                    elif name == "dot_ct":
+                        body = ["dot_ct", 3, 2, 0, 1, 1, 2]
+                    elif name == "dot_pt_znx":
+                        body = ["dot_pt_znx", 3, 2, 0, 1, d, rng.range(0, 5), q]
+                    elif name == "dot_pt_rnx":
+                        body = ["dot_pt_rnx", 3, 2, 0, 2, d, rng.range(0, 5)]
+                    else:
+                        body = ["dot_cst_rnx", 3, 3, 0, 1, 2, d, rng.range(0, 5), 1, rng.below(2)]
+                    sim = Sim(q, [1], 53, [(W, 0, 0)] * 3 + [(10000, 0, 0)])
+                    for o in pre:
+                        sim.step(o.split(","))
+                    out, _ = sim.step([str(x) for x in body])
+                    nat = sim.pool[3].eff() if out.startswith("ok") else 2 * q
+                    size = max(1, (nat - 1) // q - rng.below(2)) if narrow else min(W, nat // q + 1 + rng.below(2))
+                    if narrow and size * q >= nat:
+                        size = max(1, size - 1)
+                    n = 16 if idx % 3 else 64
+                    lines.append(f"be={be} n={n} base2k={q} maxprec=53 keys=1 pool={W}:0:0/{W}:0:0/{W}:0:0/{size}:0:0 vals=1 mag=1.0 ops="
+                                 + ";".join(pre + [",".join(str(x) for x in body)]))
     return lines
+
+
+def natural_eff(q, keys, st, f):
+    """effective_k the call would produce into an unboundedly wide destination (mirror run)"""
+    d = int(f[1])
+    pool = [(s, dd, b) for (dd, b, s) in st]
+    pool[d] = (10000, pool[d][1], pool[d][2])
+    sim = Sim(q, keys, 53, pool)
+    out, _ = sim.step(f)
+    return sim.pool[d].eff() if out.startswith("ok") else None
 
 
 def cells_of(line, impl_steps):
@@ -854,7 +1035,11 @@ def cells_of(line, impl_steps):
         f = op.split(",")
         name = f[0]
         try:
-            if impl_steps[i].startswith("ok") and (name in BINARY_CT or name in UNARY_OUT):
+            if impl_steps[i].startswith("ok") and name in MANY_OUT:
+                nat = natural_eff(q, keys, st, f)
+                if nat is not None:
+                    out.append((name, nat > st[int(f[1])][2] * q, "-"))
+            elif impl_steps[i].startswith("ok") and (name in BINARY_CT or name in UNARY_OUT):
                 dd, db_, ds = st[int(f[1])]
                 K = ds * q
                 if name in BINARY_CT:
@@ -889,7 +1074,7 @@ def required_cells():
         for off in (True, False):
             for rel in "<=>":
                 req.append((name, off, rel))
-    for name in UNARY_OUT:
+    for name in UNARY_OUT + MANY_OUT:
         for off in (True, False):
             req.append((name, off, "-"))
     return req
